@@ -2,6 +2,8 @@ package core
 
 import (
 	"bytes"
+	"encoding/hex"
+	"encoding/json"
 	"context"
 	"crypto/sha256"
 	"fmt"
@@ -12,6 +14,7 @@ import (
 
 	"pgregory.net/rapid"
 
+	"github.com/drand/drand/v2/common"
 	"github.com/drand/drand/v2/internal/chain"
 	fx "github.com/drand/drand/v2/internal/veriffx"
 	stats "github.com/drand/drand/v2/internal/verifstats"
@@ -39,7 +42,9 @@ func TestVerifC01PublicRand(t *testing.T) {
 			bursts[i] = rapid.SampledFrom([]int{1, 1, 2, 2, 3}).Draw(rt, "burst")
 			gaps[i] = rapid.SampledFrom([]int{0, 0, 1, 3, 10}).Draw(rt, "gapMs")
 		}
-		desc := fmt.Sprintf("publicrand %s storage=%s requesters=%d bursts=%v gaps=%v seed=%d", scheme, storage, g, bursts, gaps, seed)
+		withSync := rapid.Bool().Draw(rt, "syncBursts")
+		var syncBursts atomic.Int64
+		desc := fmt.Sprintf("publicrand %s storage=%s requesters=%d bursts=%v gaps=%v syncBursts=%v seed=%d", scheme, storage, g, bursts, gaps, withSync, seed)
 		v, err := newVDaemon(t, seed, []vChainSpec{{ID: "default", Scheme: scheme, Grouped: true}}, storage, false)
 		if err != nil {
 			rt.Fatalf("harness: daemon: %v", err)
@@ -125,7 +130,95 @@ func TestVerifC01PublicRand(t *testing.T) {
 				}
 			}(w)
 		}
+		// HTTP requesters: the daemon's real HTTP handler (fed by the daemon's own watch proxy) asked for the round after the head
+		// (it waits for its watcher), the head and an old round
+		httpReq := g / 4
+		if httpReq < 2 {
+			httpReq = 2
+		}
+		var httpAnswers, httpWaits atomic.Int64
+		for w := 0; w < httpReq; w++ {
+			wg.Add(1)
+			go func(w int) {
+				defer wg.Done()
+				for i := 0; !stop.Load(); i++ {
+					h := v.head("default")
+					r := h + 1
+					if (w+i)%4 == 3 {
+						r = h
+					}
+					if r == 0 {
+						continue
+					}
+					path := fmt.Sprintf("/%s/public/%d", c.HashHex, r)
+					if (w+i)%2 == 0 {
+						path = fmt.Sprintf("/public/%d", r)
+					}
+					code, body := v.httpGet(path, 2*time.Second)
+					if code/100 != 2 {
+						time.Sleep(time.Millisecond)
+						continue
+					}
+					httpAnswers.Add(1)
+					if r == h+1 {
+						httpWaits.Add(1)
+					}
+					var got struct {
+						Round     uint64 `json:"round"`
+						Signature string `json:"signature"`
+						Previous  string `json:"previous_signature"`
+					}
+					if err := json.Unmarshal([]byte(body), &got); err != nil {
+						report("C01/http-2xx-without-beacon", fmt.Sprintf("GET %s -> %d with a body that is not a beacon (%d bytes: %q); head before the request %d", path, code, len(body), trunc(body, 60), h))
+						continue
+					}
+					if got.Round != r {
+						report("C01/http-answer-for-other-round", fmt.Sprintf("GET %s -> %d with the beacon of round %d", path, code, got.Round))
+						continue
+					}
+					sig, _ := hex.DecodeString(got.Signature)
+					pv, _ := hex.DecodeString(got.Previous)
+					if err := fx.VerifyRef(sch, pk, got.Round, sig, pv); err != nil {
+						report("C01/http-beacon-does-not-verify", fmt.Sprintf("GET %s -> beacon of round %d does not verify: %v", path, got.Round, err))
+					}
+				}
+			}(w)
+		}
+		// syncBurst stores k genuine beacons back to back, the way a catch-up sync does after an outage (the harness owns the key
+		// and plays the honest peer; the beacons go through the node's own store stack, so every stream and waiter is notified)
+		syncBurst := func(k int) {
+			v.dd.state.RLock()
+			bp := v.dd.beaconProcesses["default"]
+			v.dd.state.RUnlock()
+			last, err := bp.beacon.Store().Last(context.Background())
+			if err != nil {
+				return
+			}
+			prev := last.Signature
+			var bs []*common.Beacon
+			for r := last.Round + 1; r <= last.Round+uint64(k); r++ {
+				p := prev
+				if !fx.Chained(scheme) {
+					p = nil
+				}
+				sig := c.Net.Sign(r, p)
+				bs = append(bs, &common.Beacon{Round: r, Signature: sig, PreviousSig: prev})
+				prev = sig
+			}
+			for _, b := range bs {
+				if err := bp.beacon.Store().Put(context.Background(), b); err != nil {
+					return
+				}
+			}
+			v.clock.Advance(time.Duration(k) * v.period)
+			syncBursts.Add(1)
+		}
 		for i := 0; i < nticks; i++ {
+			if withSync && bursts[i] == 3 {
+				syncBurst(3 + gaps[i]%4)
+				time.Sleep(5 * time.Millisecond)
+				continue
+			}
 			for b := 0; b < bursts[i]; b++ {
 				v.tick("default")
 				if gaps[i] > 0 {
@@ -166,6 +259,9 @@ func TestVerifC01PublicRand(t *testing.T) {
 			seen[key] = true
 			rec.Violation(rt, key, detail+" || case: "+desc, map[string]any{"case": desc})
 		}
+		rec.LabelN("publicrand/sync-bursts", syncBursts.Load())
+		rec.LabelN("publicrand/http-2xx-answers", httpAnswers.Load())
+		rec.LabelN("publicrand/http-next-round-answers", httpWaits.Load())
 		rec.LabelN("publicrand/answers", answers.Load())
 		rec.LabelN("publicrand/next-round-waits-answered", waited.Load())
 		rec.LabelN("publicrand/next-round-answered-while-head-moved-on", raced.Load())
